@@ -271,6 +271,14 @@ def isSubnormal (x : Float) : Bool :=
 
 def hasSubnormal (v : V) : Bool := anyVal (fun | .real x => isSubnormal x | _ => false) v
 
+/-- a mapping with two float keys that print alike -/
+def hasCollidingFloatKeys (v : V) : Bool :=
+  anyVal (fun
+    | .map ps =>
+      let ks := ps.toList.filterMap (fun kv => match kv.1 with | .real x => some (fmtG x) | _ => none)
+      ks.eraseDups.length != ks.length
+    | _ => false) v
+
 def hasNonFinite (v : V) : Bool := anyVal (fun | .real x => !isFinite x | _ => false) v
 
 /-- a string whose bytes are not a sequence of valid multibyte characters of the UTF-8 locale -/
@@ -292,6 +300,7 @@ def cmpRestored (what : String) (orig got : V) : List String :=
   else if (match orig, got with | .real x, .int 0 => !isFinite x | _, _ => false) then
     [s!"roundtrip nonfinite-float-became-0 {what}"]
   else if hasSubnormal orig then [s!"roundtrip subnormal-float-differs {what}"]
+  else if hasCollidingFloatKeys orig then [s!"roundtrip float-keys-print-alike {what}"]
   else [s!"roundtrip value-differs {what} expected {pv true e} got {pv true got}"]
 
 def cmpRestoreError (what : String) (orig : V) : List String :=
